@@ -791,10 +791,21 @@ def dispatch_facts(chk, facts):
         lean.check_theorems(chk, "Poupool.Properties.C14", ["Poupool.C14." + f if not f.startswith("Poupool.") else f for f in facts])
 
 
+def handler_loops_obligation(chk):
+    """side condition of the responsiveness theorem: every handler returns (no `while` loop in a method of an actor class)"""
+    try:
+        side = json.load(open(os.path.join(GEN, "askgraph.json")))
+        loops = side.get("handler_loops")
+        chk.obligation("T6: no `while` loop inside a method of an actor class (every handler returns to its inbox)", loops == [], json.dumps(loops)[:600])
+    except Exception as e:  # noqa: BLE001
+        chk.obligation("T6: no `while` loop inside a method of an actor class (every handler returns to its inbox)", False, repr(e)[:300])
+
+
 def responsiveness(chk, actors):
     """the timing / polling clauses of this property presuppose that its controllers never block for ever: the ranked
     ask-graph theorem of C09 on the regenerated graph, and any cyclic wait the explored runs hit that involves `actors`"""
     lean.check_theorems(chk, "Poupool.Properties.C09", ["Poupool.C09.strict_graph_ranked", "Poupool.C09.no_wait_cycle"])
+    handler_loops_obligation(chk)
     try:
         res = exploration(chk)
     except Exception:  # noqa: BLE001
